@@ -125,16 +125,18 @@ FlatIx(dims, coords, k) == IF k > Len(dims) THEN IL(0) ELSE IAdd(IMul(coords[k],
 OutCoords(odims) == [k \in DOMAIN odims |-> Coord(odims, k, P)]
 
 TSame(t) == SymAt(t, P)                                                               \* Reshape / Flatten / Squeeze / UnSqueeze keep the row-major order
-TTranspose(dims) ==
+TTransposeN(nm, dims) ==
   LET r == Len(dims)
       od == [k \in 1..r |-> IF k = r - 1 THEN dims[r] ELSE IF k = r THEN dims[r - 1] ELSE dims[k]]
       c == OutCoords(od)
-  IN SymAt("a", FlatIx(dims, [k \in 1..r |-> IF k = r - 1 THEN c[r] ELSE IF k = r THEN c[r - 1] ELSE c[k]], 1))
+  IN SymAt(nm, FlatIx(dims, [k \in 1..r |-> IF k = r - 1 THEN c[r] ELSE IF k = r THEN c[r - 1] ELSE c[k]], 1))
+TTranspose(dims) == TTransposeN("a", dims)
 (* ranges: one <<lo, hi>> per dimension (hi exclusive) *)
 SliceDims(ranges) == [k \in DOMAIN ranges |-> ranges[k][2] - ranges[k][1]]
-TSlice(dims, ranges) ==
+TSliceN(nm, dims, ranges) ==
   LET c == OutCoords(SliceDims(ranges))
-  IN SymAt("a", FlatIx(dims, [k \in DOMAIN dims |-> IAdd(c[k], IL(ranges[k][1]))], 1))
+  IN SymAt(nm, FlatIx(dims, [k \in DOMAIN dims |-> IAdd(c[k], IL(ranges[k][1]))], 1))
+TSlice(dims, ranges) == TSliceN("a", dims, ranges)
 TBroadcastTo(dims, target) ==
   LET c == OutCoords(target)  off == Len(target) - Len(dims)
   IN SymAt("a", FlatIx(dims, [k \in DOMAIN dims |-> IF dims[k] = 1 THEN IL(0) ELSE c[k + off]], 1))
@@ -146,14 +148,44 @@ TConcat(adims, bdims, dim) ==
          SymAt("a", FlatIx(adims, c, 1)),
          SymAt("b", FlatIx(bdims, [c EXCEPT ![dim] = IAdd(c[dim], IL(0 - adims[dim]))], 1)))
 (* Patch: the block `ranges` of a replaced by u (u's dims = SliceDims(ranges)) *)
-TPatch(dims, ranges) ==
+TPatchGen(dims, ranges, outside, inside(_)) ==             \* inside(ix): the term for the block element at flat position ix of the block
   LET c == OutCoords(dims)
-      inner == SymAt("u", FlatIx(SliceDims(ranges), [k \in DOMAIN dims |-> IAdd(c[k], IL(0 - ranges[k][1]))], 1))
+      inner == inside(FlatIx(SliceDims(ranges), [k \in DOMAIN dims |-> IAdd(c[k], IL(0 - ranges[k][1]))], 1))
       RECURSIVE W(_)
       W(k) == IF k > Len(dims) THEN inner
-              ELSE TIf(c[k], IL(ranges[k][1]), SymAt("a", P), TIf(c[k], IL(ranges[k][2]), W(k + 1), SymAt("a", P)))
+              ELSE TIf(c[k], IL(ranges[k][1]), outside, TIf(c[k], IL(ranges[k][2]), W(k + 1), outside))
   IN W(1)
+TPatch(dims, ranges) == TPatchGen(dims, ranges, SymAt("a", P), LAMBDA ix : SymAt("u", ix))
 TEye(n) == LET i == IDiv(P, IL(n)) j == IMod(P, IL(n)) IN TIf(i, j, Zero, TIf(j, i, Zero, One))
+
+(* ---- gradients with an upstream gradient g (the root is result * g, g untracked) ---- *)
+(* a term over Sym(t, 1) symbols turned into a template: every symbol replaced by the template m[<<t, 1>>], nothing folded *)
+RECURSIVE Lift(_, _)
+Lift(t, m) == CASE t.k = "s" -> m[<<t.t, t.i>>]
+                [] t.k = "a" -> [t EXCEPT !.a = [i \in DOMAIN t.a |-> IF t.f = "pow" /\ i = 2 THEN t.a[i] ELSE Lift(t.a[i], m)]]
+                [] OTHER -> t
+(* element-wise: the derivative of the one-element definition, by the same symbolic differentiation as everywhere else *)
+DUnary(op, kk) == Lift(Diff(Unary(op, kk, SymT("a", <<1>>)).data[1], Sym("a", 1)), (<<"a", 1>> :> SymAt("a", P)))
+DBinary(op, wrt) == Lift(Diff(Binary(op, SymT("a", <<1>>), SymT("b", <<1>>)).data[1], Sym(wrt, 1)),
+                         (<<"a", 1>> :> SymAt("a", P)) @@ (<<"b", 1>> :> SymAt("b", P)))
+TGradElem(d) == TApp("mul", <<d, SymAt("g", P)>>)
+(* MatMul [m,n] x [n,k], g of shape [m,k] *)
+TMatMulGradA(m, n, kk) == LET r == IDiv(P, IL(n)) q == IMod(P, IL(n)) c == IV("c")
+                          IN BigOp("sum", "c", 0, kk - 1, TApp("mul", <<SymAt("b", IAdd(IMul(q, IL(kk)), c)), SymAt("g", IAdd(IMul(r, IL(kk)), c))>>))
+TMatMulGradB(m, n, kk) == LET q == IDiv(P, IL(kk)) c == IMod(P, IL(kk)) r == IV("r")
+                          IN BigOp("sum", "r", 0, m - 1, TApp("mul", <<SymAt("a", IAdd(IMul(r, IL(n)), q)), SymAt("g", IAdd(IMul(r, IL(kk)), c))>>))
+(* reductions along dim (0-based): the position of the reduced element's fibre in g, and the fibre itself *)
+TAlongGrad(op, dims, dim) ==
+  LET n == dims[dim + 1]
+      inner == Prod(SubSeq(dims, dim + 2, Len(dims)))
+      o == IDiv(P, IL(n * inner))
+      i == IMod(P, IL(inner))
+      gp == SymAt("g", IAdd(IMul(o, IL(inner)), i))
+      elem(q) == SymAt("a", IAdd(IAdd(IMul(o, IL(n * inner)), IMul(q, IL(inner))), i))
+      mean == TApp("div", <<BigOp("sum", "q", 0, n - 1, elem(IV("q"))), QI(n)>>)
+  IN CASE op = "sum" -> gp
+       [] op \in {"avg", "mean"} -> TApp("div", <<gp, QI(n)>>)
+       [] op = "var" -> TApp("mul", <<TApp("div", <<TApp("mul", <<Two, TApp("sub", <<SymAt("a", P), mean>>)>>), QI(n - 1)>>), gp>>)
 
 (* SGD: w - lr * g, with g = c for the graph y = w * c *)
 TSgd(lr) == TApp("sub", <<SymAt("w", P), TApp("mul", <<lr, SymAt("c", P)>>)>>)
